@@ -8,6 +8,8 @@ import progcheck
 sys.path.insert(0, os.path.join(vlib.VERIF, "gen"))
 import progen  # noqa: E402
 import fixedprogs  # noqa: E402
+import smallprogs  # noqa: E402
+import json  # noqa: E402
 
 META = {
     "title": "Programs produce the result the language defines",
@@ -35,7 +37,21 @@ def run(chk, tier):
     fixed = fixedprogs.fixed_regressions() + fixedprogs.findings_c01()
     fam0 = progcheck.Family(chk, fixed, "fixed", cfg="AldorSemAny", workers=4, timeout=300)
     progcheck.replay(chk, b, fam0, routes, wd)
-    # 2. the generated family
+    # 2. the exhaustively enumerated small family: TLC enumerates the expression set (SmallProgs.tla), every member is
+    #    evaluated under every operand order and replayed on both routes
+    sr = vlib.tlc("SmallProgs", "SmallProgs1" if tier == "quick" else "SmallProgs2", workers=8, timeout=600)
+    chk.add_tlc("SmallProgs", sr)
+    exprs = [json.loads(l[5:]) for l in sr.printed if isinstance(l, str) and l.startswith("EXPR ")]
+    if len(exprs) < 600:
+        raise vlib.MachineryError("SmallProgs exported only %d expressions" % len(exprs))
+    exprs.sort(key=lambda e: json.dumps(e, sort_keys=True))
+    small = smallprogs.pack(exprs, settings=smallprogs.SETTINGS[:2] if tier == "quick" else smallprogs.SETTINGS)
+    fams = progcheck.Family(chk, small, "small", cfg="AldorSemAny", workers=vlib.NCPU, timeout=1500)
+    progcheck.replay(chk, b, fams, routes, wd)
+    chk.extra["small_family_expressions"] = len(exprs)
+    chk.extra["small_family_programs"] = len(small)
+    chk.extra["small_family_exhaustive"] = True
+    # 3. the generated family
     per = {}
     batch = 400
     done = 0
